@@ -108,6 +108,8 @@ TARGETS = [
     ('Conn_get_requires_parking', 'qce_circuit.connectivity.connectivity_surface_code', None, 'get_requires_parking'),
     ('Conn_get_higher_frequency_qubit_id', 'qce_circuit.connectivity.connectivity_surface_code', None, 'get_higher_frequency_qubit_id'),
     ('Conn_get_lower_frequency_qubit_id', 'qce_circuit.connectivity.connectivity_surface_code', None, 'get_lower_frequency_qubit_id'),
+    # --- C19: order-preserving de-duplication
+    ('Util_unique_in_order', 'qce_circuit.utilities.array_manipulation', None, 'unique_in_order'),
     # --- C18: row order of the drawing
     ('Draw_reorder_indices', 'qce_circuit.visualization.visualize_circuit.display_circuit', None, 'reorder_indices'),
     # --- C19: identifiers
@@ -280,6 +282,7 @@ def expr(e: ast.AST) -> str:
     return unsupported_e(e)
 
 
+LOCAL_SETS: set = set()       # names bound to `set()` in the function being translated: a set the function only adds to and asks membership of
 LOCAL_LISTS: set = set()      # names bound to a list display / comprehension in the function being translated
 
 
@@ -335,6 +338,11 @@ def stmt(s: ast.stmt) -> str:
                 return f'.aug {lstr(v.func.value.id)} .add (.call "list" [{expr(v.args[0])}])'
             if v.func.attr == 'append':
                 return f'.aug {lstr(v.func.value.id)} .add (.list [{expr(v.args[0])}])'
+        # `seen.add(e)` on a LOCAL set (bound to `set()` here, only added to and asked for membership): the list of the elements
+        # added — membership by `==` is all the fragment asks of it (that hash agrees with `==` is C19's own statement)
+        if isinstance(v, ast.Call) and isinstance(v.func, ast.Attribute) and isinstance(v.func.value, ast.Name) \
+                and v.func.value.id in LOCAL_SETS and v.func.attr == 'add' and len(v.args) == 1 and not v.keywords:
+            return f'.aug {lstr(v.func.value.id)} .add (.list [{expr(v.args[0])}])'
         return f'.expr ({expr(s.value)})'
     return f'.unsupported {lstr(ast.unparse(s)[:160])}'
 
@@ -371,6 +379,7 @@ def translate(lean_name: str, module: str, cls: str | None, fn: str, cache: dict
     else:
         params = [x.arg for x in a.args]
     LOCAL_LISTS.clear()
+    LOCAL_SETS.clear()
     MODULE_FUNCTIONS.clear()
     for n in tree.body:
         if isinstance(n, ast.FunctionDef) and not (n.args.vararg or n.args.kwarg or n.args.kwonlyargs or n.args.posonlyargs):
@@ -383,6 +392,8 @@ def translate(lean_name: str, module: str, cls: str | None, fn: str, cache: dict
             tgt, val = n.targets[0].id, n.value
         if tgt and isinstance(val, (ast.List, ast.ListComp)):
             LOCAL_LISTS.add(tgt)
+        if tgt and isinstance(val, ast.Call) and isinstance(val.func, ast.Name) and val.func.id == 'set' and not val.args and not val.keywords:
+            LOCAL_SETS.add(tgt)
     segment = ast.get_source_segment(src, f) or ''
     decs = [decorator_name(d) for d in f.decorator_list]
     body = block(f.body) if params is not None else '[.unsupported "signature"]'
